@@ -9,7 +9,7 @@ from typing import Dict, List, Optional, Set, Tuple
 from ..cfg import Node
 from ..core import Ctx, Report, snippet, where
 from ..fold import known
-from ..model import Func, own_nodes, src
+from ..model import AnalysisError, Func, own_nodes, src
 from ..pathsem import function_paths, resolve_local
 from .common import chain, deep_resolve, loop_body_paths, mentions, names_in, order_of
 from .keys import consumed, exported
@@ -79,16 +79,34 @@ def r07_1(ctx: Ctx, rep: Report) -> None:  # noqa: C901
     paths = [p for p in function_paths(ctx.cfg(conv)) if not p.raises]
     writes_line = []
     only_ios = True
+    platforms_ = list(ctx.folder.const("helpers", "PLATFORMS"))
+    mask_platforms = _mask_platforms(ctx, platforms_)
     for p in paths:
         stored = None
         for node, lab in p.nodes:
             if node.kind == "stmt" and isinstance(node.ast, ast.Assign) and isinstance(node.ast.targets[0], ast.Subscript) and src(node.ast.targets[0].value) == d:
                 if isinstance(node.ast.targets[0].slice, ast.Constant) and node.ast.targets[0].slice.value == "line":
                     stored = deep_resolve(node.ast.value, p.env)
-        ios_path = any((isinstance(t, ast.Compare) and "platform" in src(t) and any(isinstance(x, ast.Constant) and x.value == "ios" for x in ast.walk(t)) and ((isinstance(t.ops[0], ast.NotEq) and not tr) or (isinstance(t.ops[0], ast.Eq) and tr))) for t, tr in p.atoms)
+        # the platforms on which this path can be taken (tests of the platform against constants, evaluated per platform)
+        feasible_on = set()
+        for pl in platforms_:
+            ok_pl = True
+            for t, tr in p.atoms:
+                if isinstance(t, ast.Compare) and len(t.ops) == 1 and "platform" in src(t.left) and isinstance(t.ops[0], (ast.Eq, ast.NotEq, ast.In, ast.NotIn)):
+                    v = ctx.folder.fold(t.comparators[0], conv.module)
+                    if isinstance(t.ops[0], (ast.Eq, ast.NotEq)) and isinstance(v, str):
+                        val = (pl == v) if isinstance(t.ops[0], ast.Eq) else (pl != v)
+                    elif isinstance(t.ops[0], (ast.In, ast.NotIn)) and isinstance(v, (list, tuple, set, frozenset)):
+                        val = (pl in v) if isinstance(t.ops[0], ast.In) else (pl not in v)
+                    else:
+                        continue
+                    if val != tr:
+                        ok_pl = False
+            if ok_pl:
+                feasible_on.add(pl)
         if stored is not None:
-            writes_line.append((stored, ios_path))
-            if not ios_path:
+            writes_line.append((stored, feasible_on))
+            if feasible_on != mask_platforms:
                 only_ios = False
     if not writes_line:
         rep.violation("functions._convert_ios_addr", "line rewrite", "the member line is not rewritten to a wildcard", where(conv))
@@ -97,9 +115,10 @@ def r07_1(ctx: Ctx, rep: Report) -> None:  # noqa: C901
         txt = src(stored)
         ok_attrs = "network_address" in txt and "hostmask" in txt and txt.index("network_address") < txt.index("hostmask")
         if ok_attrs and only_ios:
-            rep.ok("functions._convert_ios_addr", "rewrites line to '<network_address> <hostmask>' only when platform == 'ios'", where=where(conv))
+            rep.ok("functions._convert_ios_addr", f"rewrites line to '<network_address> <hostmask>' exactly on the platforms where a group member 'A B' is address + mask: {sorted(mask_platforms)}", where=where(conv))
         elif not only_ios:
-            rep.violation("functions._convert_ios_addr", "platform guard", "the mask -> wildcard rewrite is applied on platforms other than ios (NX-OS members are already wildcards/prefixes)", where(conv))
+            got = sorted(set().union(*[fo for _s, fo in writes_line]))
+            rep.violation("functions._convert_ios_addr", f"platform guard: rewrite on {got}", f"the mask -> wildcard rewrite of a group member is applied on {got}, but AddressAg reads 'A B' as address + MASK on {sorted(mask_platforms)} (as address + wildcard elsewhere): on a platform in one set and not the other the ACE gets the member with mask and wildcard confused - another set of addresses", where(conv), inp="acls('object-group network G / 10.0.0.0 255.255.0.0 / ip access-list extended A / permit ip object-group G any', platform='asa')")
         else:
             rep.violation("functions._convert_ios_addr", snippet(stored), "the wildcard must be '<network address> <host mask>' of the member network (netmask instead of hostmask keeps the subnet mask as a wildcard)", where(conv), inp="member 10.0.0.0 255.255.255.0")
     # keys it reads exist in the exporter
@@ -242,6 +261,39 @@ def r07_3(ctx: Ctx, rep: Report) -> None:
             rep.ok(q, "parser.parse_config() dominates every read of a parsed view", where=where(d))
         else:
             rep.violation(q, "parse before read", "a parsed view is read before parse_config() ran (or is never parsed): the driver returns nothing", where(d))
+
+
+def _mask_platforms(ctx: Ctx, platforms: List[str]) -> Set[str]:
+    """Platforms on which AddressAg reads the two-quad form 'A B' through its subnet (address + mask) reader: decided from
+    the branch of `AddressAg.line` that handles that form, evaluated per platform."""
+    f = ctx.func("AddressAg.line.setter")
+    out: Set[str] = set()
+    found = False
+    for br in [x for x in own_nodes(f.node) if isinstance(x, ast.If) and "_is_address_wildcard" in src(x.test)]:
+        for pl in platforms:
+            def called(stmts) -> Optional[str]:
+                for st in stmts:
+                    if isinstance(st, ast.If):
+                        v = ctx.folder.fold(st.test, f.module, {"self._platform": pl, "self.platform": pl})
+                        if v is True or v is False:
+                            r = called(st.body if v else st.orelse)
+                            if r:
+                                return r
+                            continue
+                        return None
+                    for c in ast.walk(st):
+                        if isinstance(c, ast.Call) and isinstance(c.func, ast.Attribute) and src(c.func.value) == "self" and c.func.attr.startswith("_line__"):
+                            return c.func.attr
+                return None
+
+            h_ = called(br.body)
+            if h_ is not None:
+                found = True
+                if "subnet" in h_:
+                    out.add(pl)
+    if not found:
+        raise AnalysisError("AddressAg.line setter: the reader of the two-quad form could not be determined per platform")
+    return out
 
 
 def _direction_pairs(ctx: Ctx, f: Func, pairs: Dict[str, Set[str]]) -> None:
@@ -546,6 +598,50 @@ def bindings_booked_by_name(ctx: Ctx, rep: Report, rid: str = "R07.14") -> None:
         rep.note(f"{rid} no loop over (name, direction) binding lines that writes a record was recognised (not judged)")
 
 
+def only_commands_are_bindings(ctx: Ctx, rep: Report, rid: str = "R07.15") -> None:
+    """Unrelated text does not change the result: (a) the pattern that reads the bindings of a section matches whole
+    `ip access-group NAME in|out` command lines only - not the same words inside a description, not the `no` form; (b) a
+    section that is not an interface and happens to contain the words (a template, a banner) is left out, it does not
+    abort the extraction."""
+    rep.rule(rid)
+    f = ctx.func("ConfigParser._acls_on_interfaces")
+    from .common import callee_of_self_call
+
+    scope = [f]
+    for x in own_nodes(f.node):
+        if isinstance(x, ast.Call):
+            m = callee_of_self_call(ctx, f, x)
+            if m is not None and m not in scope and m.name.startswith("_") and m.name != "_interfaces_w_acl":
+                scope.append(m)
+    n = 0
+    for g in scope:
+        for c in [y for y in own_nodes(g.node) if isinstance(y, ast.Call) and src(y.func) in ("re.findall", "re.finditer") and len(y.args) >= 2]:
+            pat = ctx.folder.fold(c.args[0], g.module, ctx.folder.local_env(g))
+            fl = _fold_flags(c.args[2] if len(c.args) > 2 else next((k.value for k in c.keywords if k.arg == "flags"), None))
+            if not isinstance(pat, str) or fl is None or "access-group" not in pat:
+                continue
+            n += 1
+            rep.instance()
+            section = "description old ip access-group OLD in removed\nip address 10.0.0.1 255.255.255.0\nno ip access-group GONE out\nip access-group REAL in"
+            got = [tuple(m_) if isinstance(m_, tuple) else (m_,) for m_ in _re.findall(pat, section, fl)]
+            names = [m_[0] for m_ in got]
+            if names == ["REAL"]:
+                rep.ok(f"{g.qualname}: {pat!r}", "reads the binding command only (not the words inside a description, not the `no` form)", where=where(g, c))
+            else:
+                rep.violation(g.qualname, f"{pat!r} on a section with a description and a `no` line -> {got}", "the binding pattern matches the words `ip access-group` anywhere in a line: a description that mentions an old binding, or a `no ip access-group` line, is read as a binding (a wrong interface list, or ValueError for the 'direction' that follows) - unrelated text changes the result", where(g, c), inp="interface Gi1 / description old ip access-group ACL1 removed / ip access-group ACL1 in")
+    # (b) sections that are not interfaces
+    w = ctx.func("ConfigParser._interfaces_w_acl")
+    rep.instance()
+    keyed = any(isinstance(y, ast.Call) and isinstance(y.func, ast.Attribute) and y.func.attr == "startswith" and y.args and isinstance(ctx.folder.fold(y.args[0], w.module), str) and str(ctx.folder.fold(y.args[0], w.module)).startswith("interface") for y in own_nodes(w.node))
+    aborts = [y for g in scope for y in own_nodes(g.node) if isinstance(y, ast.If) and "startswith" in src(y.test) and "interface" in src(y.test) and y.body and isinstance(y.body[-1], ast.Raise)]
+    if keyed or not aborts:
+        rep.ok("ConfigParser._interfaces_w_acl", "only interface sections are looked at" if keyed else "a section that is not an interface does not abort the extraction", where=where(w))
+    else:
+        rep.violation("ConfigParser._acls_on_interfaces", snippet(aborts[0].test, 50) + ": raise", "every section whose text contains the words `ip access-group` is taken for an interface, and one that is not (an IOS-XE `template`, a banner) aborts acls() with ValueError('invalid interface'): an unrelated section changes the result", where(f, aborts[0]), inp="template T / ip access-group ACL1 in   (next to a valid ACL and interface)")
+    if n == 0:
+        rep.note(f"{rid} the binding pattern could not be folded - part (a) not judged")
+
+
 def sections_keep_every_line(ctx: Ctx, rep: Report, rid: str = "R07.13") -> None:
     """The section dictionary the extraction reads from keeps every line of a section: a child line is any line that
     starts with white space (one blank, two, a tab - not a particular indent), it is added whether or not an equal line
@@ -717,6 +813,7 @@ def run(ctx: Ctx, rep: Report, tier: str) -> None:
     every_reference_expanded(ctx, rep)
     sections_keep_every_line(ctx, rep)
     bindings_booked_by_name(ctx, rep)
+    only_commands_are_bindings(ctx, rep)
     # R07.10 a member reaches the ACE through its rendered line: the kind tests single out exactly the network the
     # rendered keyword stands for (C01's classification guards); R07.11 entries are stored in line order (C12 R12.4)
     from .c01 import classification_guards
